@@ -11,7 +11,7 @@ def schema_table(wd):
     out = os.path.join(wd, "schema.out")
     subprocess.run(["timeout", "120", "tlc", "-workers", "1", "-metadir", os.path.join(wd, "ms"), "-cleanup", "-noGenerateSpecTE",
                     "-config", os.path.join(vlib.SPEC, "MC_Schema.cfg"), os.path.join(vlib.SPEC, "MC_Schema.tla")],
-                   stdout=open(out, "w"), stderr=subprocess.STDOUT, cwd=wd)
+                   stdout=open(out, "w"), stderr=subprocess.STDOUT, cwd=wd, env=dict(os.environ, JAVA_TOOL_OPTIONS=f"-Djava.io.tmpdir={vlib.tmpdir(wd)}"))
     for line in open(out):
         if line.startswith('"SCHEMA '):
             t = json.loads(json.loads(line.strip())[7:])
